@@ -213,10 +213,27 @@ def mamba_min(t, ctx_level=8, side='r'):
     return s
 
 
+def unary_helpers(t):
+    """Unary minus has no inferred type of its own on this tree; an expression `a - <the same unary expression>`
+    elsewhere in the program gives it one (inference unifies structurally equal expressions). Without these helper
+    lines most expressions containing a unary minus would be rejected and never exercised."""
+    subs = []
+
+    def rec(x):
+        if isinstance(x, list):
+            if x[0] == 'SubU' and x not in subs:
+                subs.append(x)
+            for y in x[1:]:
+                rec(y)
+    rec(t)
+    return ''.join(f'def hz{i}: Int := a - {mamba_full(u)}\n' for i, u in enumerate(subs))
+
+
 def e2e_case(w, part, t, ty, style):
     src_expr = mamba_full(t) if style == 'full' else mamba_min(t)
+    # see unary_helpers
     src = ('def a: Int := 7\ndef b: Int := 3\ndef c: Int := 2\ndef p: Bool := True\ndef q: Bool := False\n'
-           f'def r: {ty} := {src_expr}\n')
+           f'def r: {ty} := {src_expr}\n' + unary_helpers(t))
     res = w.pipe(src, annotate=False)
     k = res.get('k')
     part.count('e2e:' + style)
@@ -259,12 +276,14 @@ def shard_e2e(i, n, count):
         return [o for o, _ in INT_BIN + (BIT_BIN if bits else [])]
     systematic = []
     for p in int_ops():
-        for ch in int_ops() + ['SubU']:
+        for ch in int_ops() + ['SubU', 'SubU-lit', 'SubU-SubU']:
             for side in (1, 2):
-                child = ['SubU', ['Id', 'b']] if ch == 'SubU' else [ch, ['Id', 'b'], ['Id', 'c']]
+                child = ({'SubU': ['SubU', ['Id', 'b']], 'SubU-lit': ['SubU', ['Int', '3']], 'SubU-SubU': ['SubU', ['SubU', ['Int', '2']]]}.get(ch)
+                         or [ch, ['Id', 'b'], ['Id', 'c']])
                 t = [p, child, ['Id', 'a']] if side == 1 else [p, ['Id', 'a'], child]
                 systematic.append((t, 'Int'))
         systematic.append((['SubU', [p, ['Id', 'a'], ['Id', 'b']]], 'Int'))
+        systematic.append((['SubU', [p, ['SubU', ['Int', '3']], ['Int', '2']]], 'Int'))
     for cmpo, _ in CMP_BIN:
         for ch in int_ops():
             for side in (1, 2):
